@@ -1166,6 +1166,10 @@ type Data struct {
 	denormOngoing bool // true if we are doing denormalizations so avoid ops on them.
 
 	sync.RWMutex // For CAS ops.  TODO: Make more specific (e.g., point locks) for efficiency.
+
+	// editMu serializes element edits, each of which reads, modifies and rewrites whole
+	// block, tag and label lists.  Nothing else takes it.
+	editMu sync.Mutex
 }
 
 func (d *Data) Equals(d2 *Data) bool {
@@ -2182,8 +2186,8 @@ func (d *Data) StoreBlocks(ctx *datastore.VersionedCtx, r io.Reader, kafkaOff bo
 		return 0, err
 	}
 
-	// d.Lock()
-	// defer d.Unlock()
+	d.editMu.Lock()
+	defer d.editMu.Unlock()
 
 	// Do modifications under a batch.
 	store, err := d.KVStore()
@@ -2249,8 +2253,8 @@ func (d *Data) StoreElements(ctx *datastore.VersionedCtx, r io.Reader, kafkaOff 
 		return err
 	}
 
-	// d.Lock()
-	// defer d.Unlock()
+	d.editMu.Lock()
+	defer d.editMu.Unlock()
 
 	dvid.Infof("%d annotation elements received via POST\n", len(elems))
 
@@ -2343,8 +2347,8 @@ func (d *Data) DeleteElement(ctx *datastore.VersionedCtx, pt dvid.Point3d, kafka
 	bcoord := pt.Chunk(blockSize).(dvid.ChunkPoint3d)
 	tk := NewBlockTKey(bcoord)
 
-	// d.Lock()
-	// defer d.Unlock()
+	d.editMu.Lock()
+	defer d.editMu.Unlock()
 
 	elems, err := getElements(ctx, tk)
 	if err != nil {
@@ -2419,8 +2423,8 @@ func (d *Data) MoveElement(ctx *datastore.VersionedCtx, from, to dvid.Point3d, k
 	toCoord := to.Chunk(blockSize).(dvid.ChunkPoint3d)
 	toTk := NewBlockTKey(toCoord)
 
-	// d.Lock()
-	// defer d.Unlock()
+	d.editMu.Lock()
+	defer d.editMu.Unlock()
 
 	// Alter all stored versions of this annotation using a batch.
 	store, err := d.KVStore()
